@@ -171,7 +171,7 @@ def main(tier):
     w, sels = world(2 if tier == "quick" else 3)
     hs = histories(sels, tier)
     dw, seqs = driver_world(3)
-    return e1prop.run_property(
+    rc1 = e1prop.run_property(
         PID, tier, [(w, hs, 0), (dw, driver_histories(seqs), 0)], "rv.props.c05", check_names={"c05-driver": "driver_check"},
         rule="world {f fails iff flag, g->f, h, i->h}; every ordered selection of <= n of {f,g,h,i} (quick n=2, thorough n=3) "
              "as the command line of redo-ifchange, of redo, and as the redo-ifchange list inside all.do; x {-k, no -k}; x "
@@ -184,10 +184,83 @@ def main(tier):
              "(lib fails through an undeclared input): the status of every command inside the run must match the reference.",
         assumptions=["-j1, REDO_LOG=0", "one world shape (failing leaf, dependent, independent sibling, dependent of sibling)"],
         budget_s=None)
+    from .. import e2prop
+    ev = json.load(open(common.EVIDENCE_DIR / "C05.json"))
+    rc2 = e2prop.run_property(
+        PID, tier, e2_scenarios(tier), e2_oracle, rule=ev["coverage"]["rule"] + " Parallel half (E2): redo -j2 [-k] over the same "
+        "world with the failing leaf, every schedule with <= b deviations (quick 1, thorough 2): non-zero exit, failing script at most "
+        "once per run, failure recorded, dependents not recorded up to date, -k builds every independent target.",
+        assumptions=ev["assumptions"], budget_s=600 if tier == "quick" else 3000,
+        extra={"e1": {k: ev["coverage"][k] for k in ("states", "transitions", "traces_validated_against_impl", "worlds",
+                                                    "oracle_counters", "distinct_observed_outcomes")},
+               "e1_violations": ev.get("violations", 0)})
+    return 1 if (rc1 or rc2) else 0
+
+
+# ---------------------------------------------------------------------------
+# parallel half (E2): the same failure semantics under every schedule with <= b deviations at -j2
+
+def e2_scenarios(tier):
+    from ..e2 import scenarios as SC
+    w, _sels = world(1)
+    q = tier == "quick"
+    vis = SC.TOKENS + ["lock-try"]
+    L = []
+    for k in (False, True):
+        flag = " -k" if k else ""
+        L.append((SC.scn("fail-j2%s-g-h-i" % ("-k" if k else ""), w, ["redo --no-log -j2%s g h i" % flag],
+                         setup=[["edit", "flag", "1"]], visible=vis, keep_going=k), 1 if q else 2))
+    if not q:
+        L.append((SC.scn("fail-j2-k-f-g-h", w, ["redo --no-log -j2 -k f g h"], setup=[["edit", "flag", "1"]], visible=vis,
+                         keep_going=True), 2))
+        L.append((SC.scn("fail-rebuild-j2-k-g-i", w, [{"name": "T0", "argv": ["redo-ifchange", "g", "i"], "env": {"REDO_KEEP_GOING": "1"}}],
+                         setup=[["ifchange", ["g", "i"]], ["edit", "flag", "1"], ["edit", "s", "1"]], visible=vis,
+                         keep_going=True, jobserver=2, env_k=True), 2))
+    return L
+
+
+def e2_oracle(scn, res):
+    out = []
+    if res["verdict"] != "done":
+        return out
+    name = scn["name"]
+    for n, rc in res["roots"].items():
+        if rc == 0:
+            out.append(({"kind": "missed-failure", "scenario": name}, {"stderr": res["stderr"].get(n, "")[-500:]}))
+    ran = [l.split(" ")[1] for l in res["trace"] if l.startswith("B ")]
+    if ran.count("f") > 1:
+        out.append(({"kind": "failed-target-executed-twice-in-one-run", "scenario": name, "count": ran.count("f")}, {"ran": ran}))
+    if scn.get("keep_going"):
+        # every requested target that does not depend on the failed one is built
+        for t, want in (("h", "h(%s)\n"), ("i", "i(h(%s))\n")):
+            requested = t in " ".join(scn["roots"][0]["argv"]).split() or (t == "h" and "i" in scn["roots"][0]["argv"])
+            if requested:
+                sval = "1" if ["edit", "s", "1"] in scn.get("setup", []) else "0"
+                if res["files"].get(t) != want % sval:
+                    out.append(({"kind": "keep-going-skipped-buildable-target", "scenario": name, "target": t},
+                                {"got": res["files"].get(t), "ran": ran}))
+    else:
+        per = {}
+        for text in res["stderr"].values():
+            for line in text.split("\n"):
+                m = re.match(r"^redo\s+(\S+)(?: \(exit (\d+)\))?$", line.strip())
+        # without -k the pretty top-level log has no pids; the per-process rule (e) is judged by the serial half
+    # a failed target is recorded as failed (so the next run retries it)
+    rows = {r[0]: r for r in (res.get("dbrows") or [])}
+    if "f" in rows and not rows["f"][2]:
+        out.append(({"kind": "failure-not-recorded", "scenario": name}, {"row": rows["f"]}))
+    for t in ("g",):
+        if t in ran and res["files"].get(t) is not None and t in rows and rows[t][1] and not rows[t][2]:
+            out.append(({"kind": "dependent-of-failed-target-recorded-up-to-date", "scenario": name, "target": t}, {"row": rows[t]}))
+    return out
 
 
 def replay(path):
     doc = json.load(open(path))
+    if doc.get("engine") == "E2":
+        from .. import e2prop
+        sc = {s["name"]: s for s, _ in e2_scenarios("thorough")}
+        return e2prop.replay(PID, sc, e2_oracle, path)
     w, sels = world(3)
     chk = step_check
     if doc.get("world") == "c05-driver":
